@@ -124,7 +124,14 @@ class Gen:
             self.feat.add("call")
             if self.funcs[j]["mod"] != sc["mod"]:
                 self.feat.add("call-other-module")
-            if r.random() < 0.025:
+            nd = len(self.funcs[j].get("defaults", []))
+            if nd and r.random() < 0.65:
+                # rely on the defaults: drop trailing arguments (CPython fills them in; the translator's strict zip
+                # refuses).  Never down to ZERO arguments: `helper()` of a helper with parameters skips the zip in
+                # the shipped code (recorded finding zero-arg-call-of-defaulted-helper, corpus witness caller0)
+                n = max(1, n - r.randint(1, nd))
+                self.feat.add("call-relying-on-default")
+            elif not nd and r.random() < 0.025:
                 n = max(0, n + r.choice([-1, 1]))
                 self.feat.add("call-arity-mismatch")
             args = [self.expr(sc, d - 1, divisor) for _ in range(n)]
@@ -347,7 +354,13 @@ class Gen:
         if r.random() < 0.1:
             body.append(("doc",))
         body += self.block(sc, 2 if (small or r.random() < 0.8) else 3, r.randint(0, 2 if small else 3), must_return=True)
-        f = {"params": params, "mod": mod, "body": body, "name": f"f{self.case_id}_{idx}"}
+        defaults: list[Fraction] = []
+        if n_params >= 1 and r.random() < 0.3:
+            # defaulted TRAILING parameters (`def f(v01, v02=2.0)`), sometimes all of them
+            k = r.randint(1, n_params)
+            defaults = [r.choice(REBIND_POOL) for _ in range(k)]
+            self.feat.add("default-args")
+        f = {"params": params, "mod": mod, "body": body, "name": f"f{self.case_id}_{idx}", "defaults": defaults}
         return f
 
     # -- rendering: Python ---------------------------------------------------------------
@@ -373,7 +386,10 @@ class Gen:
             g = self.funcs[e[1]]
             args = [self.src(a, mod=m) for a in e[2]]
             if k == "callkw":
-                args[-1] = f"{vn(g['params'][min(len(args), len(g['params'])) - 1])}={args[-1]}"
+                # (a parameterless callee reached through an arity mismatch has no parameter name to use: any keyword does,
+                # CPython raises TypeError and the translator refuses keywords whatever their name)
+                kw = vn(g["params"][min(len(args), len(g["params"])) - 1]) if g["params"] else "v01"
+                args[-1] = f"{kw}={args[-1]}"
             if g["mod"] == m or g.get("from_imported"):
                 callee = g["name"]
             else:
@@ -429,7 +445,10 @@ class Gen:
         return out
 
     def fn_source(self, f: dict) -> str:
-        lines = [f"def {f['name']}({', '.join(vn(p) for p in f['params'])}):"] + self.src_block(f["body"], 1, f["mod"])
+        ds = f.get("defaults", [])
+        nreq = len(f["params"]) - len(ds)
+        sig = [vn(p) if i < nreq else f"{vn(p)}=" + (f"_X({float(ds[i - nreq])!r})" if self.exact else repr(float(ds[i - nreq]))) for i, p in enumerate(f["params"])]
+        lines = [f"def {f['name']}({', '.join(sig)}):"] + self.src_block(f["body"], 1, f["mod"])
         return "\n".join(lines) + "\n"
 
 
@@ -503,7 +522,8 @@ def g_stmts(ss: list) -> str:
 
 def g_fundef(f: dict) -> str:
     """an [mfun] (ConstEnv.v): parameters, module id, body -- the constants come with the case's environment"""
-    return f"(mkMFun [{'; '.join(str(p) for p in f['params'])}] {MOD_IDS[f['mod']]} {g_stmts(f['body'])})"
+    ds = "; ".join(cq(d) for d in f.get("defaults", []))
+    return f"(mkMFun [{'; '.join(str(p) for p in f['params'])}] [{ds}] {MOD_IDS[f['mod']]} {g_stmts(f['body'])})"
 
 
 def g_env(consts: dict[str, dict[int, Fraction]], attrs: dict[str, Fraction]) -> str:
